@@ -821,6 +821,16 @@ func Mul(x, y *T) *T {
 				return x
 			}
 		}
+		// a factor that is an ite-tree over constants (a concrete value merged along several paths) is
+		// distributed, which keeps the product linear
+		if !isC(x) && !isC(y) {
+			if r, ok := distIte(y, func(c *T) *T { return Mul(x, c) }, 0); ok {
+				return r
+			}
+			if r, ok := distIte(x, func(c *T) *T { return Mul(c, y) }, 0); ok {
+				return r
+			}
+		}
 		return mk("*", SReal, "", 0, x, y)
 	case SBV:
 		if isC(x) && isC(y) {
@@ -839,7 +849,41 @@ func DivR(x, y *T) *T {
 		}
 		return Mul(x, R(new(big.Rat).Inv(y.r)))
 	}
+	if r, ok := distIte(y, func(c *T) *T {
+		if c.r.Sign() == 0 {
+			return mk("/", SReal, "", 0, x, c)
+		}
+		return DivR(x, c)
+	}, 0); ok && !isC(y) {
+		return r
+	}
 	return mk("/", SReal, "", 0, x, y)
+}
+
+// distIte applies f to the constant leaves of an ite-tree whose leaves are ALL constants (depth <= 6).
+func distIte(t *T, f func(*T) *T, depth int) (*T, bool) {
+	if isC(t) {
+		return f(t), true
+	}
+	if t.op == "ite" && depth < 6 {
+		if !iteConstTree(t, depth) {
+			return nil, false
+		}
+		a, _ := distIte(t.a[1], f, depth+1)
+		b, _ := distIte(t.a[2], f, depth+1)
+		return Ite(t.a[0], a, b), true
+	}
+	return nil, false
+}
+
+func iteConstTree(t *T, depth int) bool {
+	if isC(t) {
+		return true
+	}
+	if t.op == "ite" && depth < 6 {
+		return iteConstTree(t.a[1], depth+1) && iteConstTree(t.a[2], depth+1)
+	}
+	return false
 }
 
 // QuoI / RemI: Go integer division truncating toward zero.
